@@ -1,4 +1,5 @@
 """C12 - keep-alives and timeouts: idle links stay up, dead peers are detected, setters work."""
+import random
 import collections
 
 from checks.common import UdpCheck, Monitor, MTUS, QueueConservation
@@ -221,6 +222,15 @@ class C12(UdpCheck):
                 cfg["connect_timeout"] = to2
                 cfg["duration"] = t2 + to2 + 6.0
                 cfg["second_attempt"] = how
+            rng_late = random.Random("late-answer|%s" % (rng.getstate()[1][:3],))   # does not consume from the main stream
+            if not cfg.get("second_attempt") and rng_late.random() < 0.5:
+                # the answer is not lost but late: the server hello reaches the client after the attempt has been reported
+                # as failed. The attempt stays failed (DISCONNECTED, one callback with False)
+                # (a delay phase delivers after 25 % .. 100 % of its nominal delay)
+                late_by = 4.0 * (cfg["connect_timeout"] + rng_late.choice([0.05, 0.2, 0.5]))
+                cfg["phases"] = [{"t0": 0.0, "t1": 10 ** 9, "src": "S", "delay": late_by, "delay_p": 1.0}]
+                cfg["late_answer"] = True
+                cfg["duration"] = max(cfg["duration"], late_by + 2.0)
         else:   # setters: every order relative to connect
             vals = {"keep_alive": rng.choice([0.03, 0.2, 0.7]), "conn_timeout": rng.choice([0.7, 1.5, 4.0]),
                     "msg_timeout": rng.choice([0.4, 1.5, 2.5])}
@@ -432,7 +442,17 @@ class C12(UdpCheck):
             if not last_connect or (cfg.get("second_attempt") and not (len(w.incarnations) == 2 and w.incarnations[1].get("reused"))):
                 w.vacuous = True
                 return vs
-            if any(st == "CONNECTED" and t >= t0 for t, st in statuses):      # the hello was answered after all (e.g. a minimiser removed the drops)
+            failed_at = next((t for t, st in statuses if st == "DISCONNECTED" and t > t0), None)
+            revived = [t for t, st in statuses if st == "CONNECTED" and t >= t0 and failed_at is not None and t > failed_at]
+            if revived:
+                # the attempt was reported as failed (DISCONNECTED) and a late server hello opened it again
+                w.reached = True
+                calls = [c for c in cn.connect_cbs if c[1] == cn.inc]
+                vs.append({"kind": "failed_connect_attempt_revived_by_late_answer", "key": "cb" if last_connect[0].get("cb", True) else "nocb",
+                           "detail": {"timeout": cfg["connect_timeout"], "failed_after": round(failed_at - t0, 4),
+                                      "connected_after": round(revived[0] - t0, 4), "callbacks": calls[:4]}})
+                return vs
+            if any(st == "CONNECTED" and t >= t0 for t, st in statuses):      # the hello was answered in time (e.g. a minimiser removed the drops)
                 w.vacuous = True
                 return vs
             w.reached = True
